@@ -373,7 +373,7 @@ def thread_family(r, tier):
             reqs = {"A": SV.AReq(method="POST", headers=[("Content-Type", "text/plain"), ("X-Req", "A")], chunks=[b"body-of-A"]),
                     "B": SV.AReq(method="POST", headers=[("Content-Type", "text/plain"), ("X-Req", "B")], chunks=[b"B"]),
                     "G": SV.AReq(method="GET")}
-            SV.wsgi_thread_pairs(r, f"{name} under {'>'.join(stack)}", app, reqs, [("A", "B"), ("A", "G"), ("B", "G")], files, bound=1)
+            SV.wsgi_thread_pairs(r, f"{name} under {'>'.join(stack)}", app, reqs, [("A", "B"), ("A", "G"), ("B", "G")], files, bound=1, factory=lambda: build("wsgi", name, stack, tmpfile)[0])
         r.sample({"threads": "two requests through one wrapped WSGI app object, line-level schedules in middleware.py/shortcut.py/datastructures.py"})
     finally:
         shutil.rmtree(d, ignore_errors=True)
